@@ -33,14 +33,24 @@ fn dec_line(ty: &Ty, bytes: &[u8]) -> String {
 pub fn cases(args: &[String]) {
     quiet_panics();
     let f = std::fs::File::open(&args[0]).expect("case file");
+    let with_alloc = args.iter().any(|a| a == "--alloc");
+    let limit_ms: u64 = args
+        .iter()
+        .find_map(|a| a.strip_prefix("--limit-ms=").map(|v| v.parse().unwrap()))
+        .unwrap_or(10_000);
+    start_watchdog(limit_ms);
     let out = std::io::stdout();
-    let mut out = std::io::BufWriter::new(out.lock());
+    let mut out = std::io::LineWriter::new(out.lock());
+    let mut index = 0u64;
     for line in std::io::BufReader::new(f).lines() {
         let line = line.unwrap();
         let line = line.trim();
         if line.is_empty() {
             continue;
         }
+        case_begin(index);
+        index += 1;
+        reset_max_req();
         let (cmd, rest) = line.split_once(' ').unwrap_or((line, ""));
         let sx = parse_all(rest);
         let res: Result<String, String> = match cmd {
@@ -80,9 +90,10 @@ pub fn cases(args: &[String]) {
             }
             _ => panic!("bad command {cmd}"),
         };
+        let alloc = if with_alloc && cmd != "E" { format!(" A{}", max_req()) } else { String::new() };
         match res {
-            Ok(s) => writeln!(out, "{s}").unwrap(),
-            Err(p) => writeln!(out, "panic {}", p.replace('\n', " ")).unwrap(),
+            Ok(s) => writeln!(out, "{s}{alloc}").unwrap(),
+            Err(p) => writeln!(out, "panic {}{alloc}", p.replace('\n', " ")).unwrap(),
         }
     }
 }
